@@ -1,6 +1,7 @@
 package recovery
 
 import (
+	"bytes"
 	"encoding/json"
 	"fmt"
 	"io"
@@ -195,6 +196,17 @@ func LoadCheckpointList(fs storage.FileSystem, dataOwnership kv.DataOwnership, c
 		// Merge level list
 		for levelIndex, level := range doc.Levels {
 			compositeCheckpointDoc.Levels[levelIndex] = append(compositeCheckpointDoc.Levels[levelIndex], level...)
+		}
+	}
+
+	// Levels below 0 are searched with a binary search over the tables' key
+	// ranges: after merging several operators' checkpoints (given in no
+	// particular order) each of them has to be sorted by start key again.
+	if len(rest) > 0 {
+		for levelIndex := 1; levelIndex < len(compositeCheckpointDoc.Levels); levelIndex++ {
+			slices.SortStableFunc(compositeCheckpointDoc.Levels[levelIndex], func(a, b sst.TableDocument) int {
+				return bytes.Compare(a.StartKey, b.StartKey)
+			})
 		}
 	}
 
